@@ -4,7 +4,7 @@
    correspondence runs of harness/cmd/c16. *)
 From Coq Require Import List Arith Bool.
 Import ListNotations.
-From GU Require Import C16.Model C16.ProofsBase C16.ProofsA C16.ProofsS C16.ProofsF C16.ProofsL C16.ProofsI C16.ProofsJ C16.ProofsK C16.Proofs.
+From GU Require Import C16.Facts C16.Gen C16.Model C16.ProofsBase C16.ProofsA C16.ProofsS C16.ProofsF C16.ProofsL C16.ProofsI C16.ProofsJ C16.ProofsK C16.Proofs.
 
 (* Both cache kinds (p_kind), any number of clients and of stored versions (ops), EVERY schedule at backend micro-step
    granularity, with any fault (error / short write / crash / crash after a partial write) at any step of any client and
@@ -74,6 +74,51 @@ Theorem store_success_visible_immutable : forall (P : params) (v : ver) (u c : n
                c_pc L' = Done Ok /\ c_dest L' = DInst v)).
 Proof. exact store_success_visible_immutable_l. Qed.
 Print Assumptions store_success_visible_immutable.
+(* ---- the theorems that depend on facts about the source, for the instance GENERATED from the current source ----
+   coq/C16/Gen.v is rewritten by translator-c16 on every run.  [P_gen] is the model whose flags are read from it; the side
+   conditions below are closed by computation on the generated record, so they BREAK when an edit of the source changes a fact
+   (deferred unlock moved before the acquisition, re-hash taken from the destination, recursive unzip, ...). *)
+Definition P_gen (k : kind) (more : ver -> nat) : params := params_of_facts gen_facts k more (fun _ => None).
+
+Theorem generated_model_applies : facts_model_applies gen_facts = true.
+Proof. reflexivity. Qed.
+Print Assumptions generated_model_applies.
+
+Theorem mutable_transfers_exclusive_generated : forall (more : ver -> nat) (ops : list opk) (sched : list label),
+  ~ In BreakLock sched ->
+  let P := P_gen Mutable more in
+  let st := run P (init_state P ops) sched in
+  forall n m Ln Lm, nth_error (s_cl st) n = Some Ln -> nth_error (s_cl st) m = Some Lm ->
+    in_critical Ln = true -> in_critical Lm = true -> n = m /\ r_lock (s_rem st) = LHeld n true.
+Proof. intros more ops sched H. apply mutable_transfers_exclusive; [reflexivity | reflexivity | exact H]. Qed.
+Print Assumptions mutable_transfers_exclusive_generated.
+
+Theorem store_success_visible_mutable_generated : forall (more : ver -> nat) (v : ver) (u c : nat) (fs : list fault) (R : remote) (calls : list call),
+  let P := P_gen Mutable more in
+  let '(R1, L1) := run_faults P c fs R (new_client P (OStore v u)) in
+  c_pc L1 = Done Ok ->
+  r_lock R1 = LFree /\
+  let '(R2, Ls) := run_calls P R1 calls in
+  (forall L, In L Ls -> fetch_ok L = true -> c_dest L = DInst v) /\
+  (r_lock R2 = LFree -> forall c',
+     let L' := snd (run_faults P c' (repeat NoF 12) R2 (new_client P OFetch)) in
+     c_pc L' = Done Ok /\ c_dest L' = DInst v).
+Proof. intros more v u c fs R calls. apply store_success_visible_mutable; reflexivity. Qed.
+Print Assumptions store_success_visible_mutable_generated.
+
+Theorem store_success_visible_immutable_generated : forall (more : ver -> nat) (v : ver) (u c : nat) (fs : list fault) (R : remote) (calls : list call),
+  let P := P_gen Immutable more in
+  let '(R1, L1) := run_faults P c fs R (new_client P (OStore v u)) in
+  c_pc L1 = Done Ok ->
+  content (Pkg u) R1 = Some (full P v) /\
+  (newest1 u R1 ->
+   let '(R2, Ls) := run_calls P R1 calls in
+   (forall L, In L Ls -> fetch_ok L = true -> c_dest L = DInst v) /\
+   (forall c', let L' := snd (run_faults P c' (repeat NoF 12) R2 (new_client P OFetch)) in
+               c_pc L' = Done Ok /\ c_dest L' = DInst v)).
+Proof. intros more v u c fs R calls. apply store_success_visible_immutable; reflexivity. Qed.
+Print Assumptions store_success_visible_immutable_generated.
+
 (* The hypothesis cannot be dropped: if a proper prefix of a package unzips, a crash of the first Store right after that
    prefix lets a later Fetch report success with a tree that was never stored. *)
 Theorem zip_integrity_hypothesis_is_necessary :
